@@ -18,6 +18,7 @@ type H struct {
 	t0   time.Time
 	abort bool
 	noReport int
+	slowRounds int
 }
 
 func (h *H) logf(format string, a ...any) {
